@@ -55,6 +55,9 @@ func run(c *hlib.Ctx) {
 	for i := 0; i < n/2; i++ {
 		kindNearMap(c)
 	}
+	for i := 0; i < n/4+1; i++ {
+		kindExt(c)
+	}
 }
 
 // ---------------------------------------------------------------- grow: the state machine, exactly
@@ -722,10 +725,27 @@ func kindAtlas(c *hlib.Ctx) {
 	}
 	x := index(g.m)
 	res := 1 << uint(5+c.Rng.Intn(6))
-	if strings.HasPrefix(g.label, "spiked") || g.label == "long-cone" {
-		// many small charts: the texture must be large enough for every quad-tree cell to be wider
-		// than its two borders (otherwise ToBounds panics or flattens the chart; `pack` covers that)
+	// The texture must be large enough for every quad-tree cell to be wider than its two borders
+	// (otherwise ToBounds panics or flattens the chart to zero width; `pack` covers that): a chart
+	// with area share a sits about log4(1/a)+1 levels deep, a cell at depth d is 2^-d wide and the
+	// border is 1/res.  Small meshes (few charts) get any resolution, larger ones at least 128 / 512,
+	// meshes with spikes (tiny area shares; also inside a two-component union) at least 256.
+	// `atlas-tightest-chart-box` records how close the run came: the smallest side of a chart's UV
+	// box in units of the border (0 = flattened; 2 = one more level would flatten).
+	minExp := 5
+	if n := len(x.tris); n > 40 {
+		minExp = 9
+	} else if n > 12 {
+		minExp = 7
+	}
+	if res < 1<<uint(minExp) {
+		res = 1 << uint(minExp+c.Rng.Intn(11-minExp))
+	}
+	if strings.Contains(g.label, "spiked") || g.label == "long-cone" {
 		res = 1 << uint(8+c.Rng.Intn(5))
+		if len(x.tris) > 40 && res < 512 {
+			res = 512
+		}
 	}
 	var uv model3d.MeshUVMap
 	st := watchdog(func() { uv = model3d.BuildAutomaticUVMap(g.m, res, false) })
@@ -744,6 +764,7 @@ func kindAtlas(c *hlib.Ctx) {
 	if len(uv) != len(x.tris) {
 		return
 	}
+	c.Stat(fmt.Sprintf("atlas-tightest-chart-box:%s-borders", tightestChartBox(x, uv, res)), 1)
 	// MapFn round trip at barycentric sample points (float arithmetic: `near`, validation)
 	var fn func(model2d.Coord) (model3d.Coord3D, *model3d.Triangle)
 	if st := watchdog(func() { fn = uv.MapFn() }); st != "ok" {
@@ -755,6 +776,66 @@ func kindAtlas(c *hlib.Ctx) {
 		emitMapFn(c, "N", uv, fn, t, sampleBary(c, false))
 	}
 	nearAtlas(c, x, uv, fn)
+}
+
+// tightestChartBox: the charts of the atlas are the groups of triangles that share a (3-D vertex,
+// UV point) pair; returns the smallest side of a chart's UV bounding box in units of the border
+// 1/res, as a bucket label.
+func tightestChartBox(x *indexed, uv model3d.MeshUVMap, res int) string {
+	parent := make([]int, len(x.tris))
+	for i := range parent {
+		parent[i] = i
+	}
+	var find func(i int) int
+	find = func(i int) int {
+		for parent[i] != i {
+			parent[i] = parent[parent[i]]
+			i = parent[i]
+		}
+		return i
+	}
+	first := map[[5]float64]int{}
+	for i, t := range x.tris {
+		u := uv[t]
+		for k := 0; k < 3; k++ {
+			key := [5]float64{t[k].X, t[k].Y, t[k].Z, u[k].X, u[k].Y}
+			if j, ok := first[key]; ok {
+				parent[find(i)] = find(j)
+			} else {
+				first[key] = i
+			}
+		}
+	}
+	lo := map[int]model2d.Coord{}
+	hi := map[int]model2d.Coord{}
+	for i, t := range x.tris {
+		r := find(i)
+		for _, p := range uv[t] {
+			if _, ok := lo[r]; !ok {
+				lo[r], hi[r] = p, p
+			}
+			lo[r], hi[r] = lo[r].Min(p), hi[r].Max(p)
+		}
+	}
+	tight := math.Inf(1)
+	for r := range lo {
+		d := hi[r].Sub(lo[r])
+		tight = math.Min(tight, math.Min(d.X, d.Y)*float64(res))
+	}
+	switch {
+	case tight < 0.5:
+		return "00"
+	case tight < 2.5:
+		return "02"
+	case tight < 6.5:
+		return "06"
+	case tight < 14.5:
+		return "14"
+	case tight < 30.5:
+		return "30"
+	default:
+		return "62-or-more"
+	}
 }
 
 func sampleBary(c *hlib.Ctx, allowEdge bool) [3]float64 {
